@@ -10,6 +10,7 @@ func init() {
 	vRegister("H_C04_PingAck", H_C04_PingAck)
 	vRegister("H_C03_StreamPingName", H_C03_StreamPingName)
 	vRegister("H_C04_TruthfulSelfAlive", H_C04_TruthfulSelfAlive)
+	vRegister("H_C04_UpdateThenGossip", H_C04_UpdateThenGossip)
 }
 
 // vProbeTarget runs one probe() tick with a transport that fails fast and returns who was pinged ("" = nobody).
@@ -294,4 +295,48 @@ func H_C03_StreamPingName() {
 		vCover("c03.tcp-ping.own")
 	}
 	vAssert(conn.closed >= 1, "c03.tcp-ping.closed")
+}
+
+// C04: a metadata update made before or after peers exist (with a waiter that is long gone when the broadcast
+// completes, is superseded or is pruned) never wedges the node: gossip keeps running to completion of the
+// retransmissions, the queue drains, and pings are still answered at once.
+func H_C04_UpdateThenGossip() {
+	conf := vBaseConfig()
+	conf.GossipNodes = 1
+	conf.RetransmitMult = 1 + vPick(2)
+	f := vNewML(conf)
+	m := f.m
+	f.del = &vDelegateRec{}
+	conf.Delegate = f.del
+	me := f.vAddSelf(3, nil)
+	order := vPick(3)
+	if order == 0 {
+		// alone: UpdateNode has nobody to wait for and returns at once
+		vAssert(m.UpdateNode(time.Second) == nil, "c04.update.alone-ok")
+		f.vAddConcreteAlive(vPeerA, 2).PMax = 2
+	} else {
+		f.vAddConcreteAlive(vPeerA, 2).PMax = 2
+		// with a peer: nobody gossips while we wait, so the call gives up at its timeout - the broadcast stays queued
+		err := m.UpdateNode(time.Second)
+		vAssert(err != nil, "c04.update.times-out-without-gossip")
+		if order == 2 {
+			// a second update supersedes the first while it is still queued
+			err2 := m.UpdateNode(time.Second)
+			vAssert(err2 != nil, "c04.update.second-times-out")
+		}
+	}
+	vAssert(me.Incarnation > 3, "c04.update.incarnation-raised")
+	rounds := 0
+	for ; m.broadcasts.NumQueued() > 0 && rounds < 12; rounds++ {
+		m.gossip()
+	}
+	vAssert(m.broadcasts.NumQueued() == 0, "c04.update.queue-drains")
+	vAssert(rounds >= 1 && rounds <= 8, "c04.update.bounded-retransmits")
+	f.tr.packets = nil
+	buf, _ := encode(pingMsg, &ping{SeqNo: 9, Node: vSelf}, false)
+	m.handlePing(buf.Bytes()[1:], vAddr("10.0.0.2:7946"))
+	vAssert(len(f.tr.packets) == 1, "c04.update.still-answers-pings")
+	vAssert(m.GetHealthScore() == 0, "c04.update.health-stays-zero")
+	vAssert(vLiveGoroutines() == 0, "c04.update.nothing-left-running")
+	vCover("c04.update")
 }
